@@ -454,6 +454,10 @@ pub fn run(run: &'static Run) {
         eval,
     );
 
+    if run.over_budget() {
+        run.cap_hit("time budget reached before sub-check fixture-states started");
+        return finish_cov(run);
+    }
     run.rule("fixture states: git-written indices {tree-valid, tree-partly-invalid, v4-ieot-conflict (read as v4, written as v2/v3), sparse} decoded by gitoxide x mutation {none, REMOVE entry i, skip-worktree entry i (each i), REMOVE all} x the 6 extension options");
     run.sub_with(
         "fixture-states",
@@ -482,6 +486,10 @@ pub fn run(run: &'static Run) {
         eval,
     );
 
+    finish_cov(run);
+}
+
+fn finish_cov(run: &'static Run) {
     let g = |c: &AtomicU64| c.load(Relaxed);
     run.cov("oracle_calls_git", g(&GIT_CALLS));
     run.cov(
